@@ -16,6 +16,7 @@ PERSONAS = {
     "12": 'Think like three different maintainers: one doing a PERFORMANCE rewrite (pre-sized buffers, early exits, binary search instead of a scan or the reverse, caching a length or a flag, avoiding a clone, bit tricks, hashing instead of sorting, processing in chunks) that is subtly wrong for some inputs; one doing a READABILITY refactoring (extracting a helper, merging two similar branches, reordering statements, replacing a `match` by `if let` chains or `?`, a mix-up of two similarly named variables, an iterator chain with `zip` / `take_while` / `skip` / `windows` / `chunks` that silently stops early) that changes behaviour in a rarely taken branch; one MERGING or GENERALISING near-identical code paths (gene / OMIM / ORPHA, v1 / v2 / v3, the `_mut` and the copying variant, the `&` and the owned operator impl, parent and child direction) into shared code and losing a difference between them.',
     "13": 'No persona this time: the list below shows what earlier rounds tried — it is long. Look for what is LEFT: public functions, trait impls, parameters, input shapes and combinations of features that none of the listed changes depends on (read the whole `src/` tree, not only the anchor files, and the doc comments: a documented behaviour that no listed change attacks is a good target). At least one of your three changes must need a COMBINATION of two independent conditions to manifest (for example an obsolete term AND a binary file of version 2; a second root AND an annotation on it; a name at the length limit AND a multi-byte character).',
     "14": 'Think like three different maintainers: one changing a CONSTANT, a LITERAL or a DERIVE (a capacity, a limit, a table size, a magic number, a default value, an id of a well-known term, a format tag, `#[derive(PartialEq/Ord/Hash/Default)]` replaced by a hand-written impl or the reverse, a field type) whose old value mattered only for rare inputs; one rewriting ERROR HANDLING (`?` instead of a match, `unwrap_or` / `unwrap_or_default` / `.ok()` swallowing an error, `expect` turned into a silent default or the reverse, `map_err` to another variant where callers match on it, an `Option` collapsed with `flatten` / `and_then`, an early `return Ok(..)`); one adding a SMALL FEATURE or convenience (a new optional behaviour, accepting a further input form, normalising input, a new public helper that shares and mutates internals, support for a newer file layout) that is meant to be backwards compatible and is not quite.',
+    "15": 'Think like three different maintainers: one slipping on UNITS AND INDEXING (`..` against `..=`, `len() - 1`, `idx + 1`, a byte offset in a binary layout, a position mixed up with an id — arena slot against term id, matrix row against column, dendrogram node index `n + k` —, a count of bytes against a count of characters, a length in records against a length in bytes); one relying on ITERATION ORDER OR COLLECTION SEMANTICS (a `HashMap` / `HashSet` walked as if ordered, `BTreeMap` swapped for `HashMap` or back, `retain` / `drain` / `dedup` / `dedup_by_key` / `sort_unstable_by_key` semantics, `extend` against `insert`, `entry().or_insert` against `insert`, first-wins against last-wins); one getting the LIFETIME OF DERIVED DATA wrong (ancestor caches, information content, categories and modifier roots, the version, record term lists: computed too early, not refreshed when a later call changes their inputs, refreshed from stale inputs, shared between a clone / sub-ontology and its source, or lost by `clone` / `Default` / `sub_ontology`).',
 }
 PERSONA = PERSONAS.get(RND, PERSONAS["9"])
 ROOT = os.path.dirname(os.path.dirname(os.path.abspath(__file__)))
